@@ -497,8 +497,10 @@ def run_batch(engine_name, prop, tier, batch_seed, n_runs=None, budget_s=None, c
 # Shrinking (delta debugging over the plan)
 # --------------------------------------------------------------------------------------------------
 
-def shrink(engine, plan, prop, tier, signature, max_exec=300, max_s=60):
-    """ddmin over plan['ops'] + engine.simplify(plan) candidates; keep iff same signature."""
+def shrink(engine, plan, prop, tier, signature, max_exec=300, max_s=60, accept=None):
+    """ddmin over plan['ops'] + engine.simplify(plan) candidates; keep iff same signature (and,
+    when given, iff accept(plan, result) holds: used to keep a new violation from being shrunk
+    into the input class of a known finding, or vice versa)."""
     t0 = time.time()
     n_exec = [0]
 
@@ -512,7 +514,9 @@ def shrink(engine, plan, prop, tier, signature, max_exec=300, max_s=60):
         except Exception:
             return False
         r = execute_plan(engine, copy.deepcopy(p), prop, tier)
-        return r.verdict == 'violation' and r.signature == signature
+        if not (r.verdict == 'violation' and r.signature == signature):
+            return False
+        return accept is None or bool(accept(p, r))
 
     best = copy.deepcopy(plan)
     changed = True
@@ -575,23 +579,24 @@ def load_known_findings():
     return data.get('findings', [])
 
 
-def _plan_env(plan):
+def _plan_env(plan, detail=None):
     env = {'plan': plan, 'cfg': plan.get('cfg', {}), 'ops': plan.get('ops', []),
+           'detail': detail if isinstance(detail, dict) else {},
            'len': len, 'any': any, 'all': all, 'min': min, 'max': max, 'sum': sum, 'set': set,
            'isinstance': isinstance, 'str': str, 'int': int, 'dict': dict, 'list': list}
     return env
 
 
-def match_known_finding(prop, signature, plan):
+def match_known_finding(prop, signature, plan, detail=None):
     """Return the open finding that pins exactly this (signature, input class), if any."""
     for f in load_known_findings():
-        if f.get('status') != 'open' or f.get('property') != prop:
+        if f.get('status') != 'open' or prop not in (f.get('property'), *f.get('properties', [])):
             continue
         if f.get('signature') != signature:
             continue
         pred = f.get('predicate', 'True')
         try:
-            if eval(pred, {'__builtins__': {}}, _plan_env(plan)):
+            if eval(pred, {'__builtins__': {}}, _plan_env(plan, detail)):
                 return f
         except Exception:
             continue
